@@ -115,6 +115,12 @@ type round7 struct {
 	state    []string // names of the state variables (sorted)
 	funcs    map[string]ltype
 	mdeps    map[string][]string
+	// zwsort.go: functions without recursion / position
+	plain    bool
+	nilLocal map[types.Object]bool                 // slice-typed locals whose nil-ness is tracked in `<name>_isNil`
+	aliases  map[types.Object]map[string]ast.Expr // `s := T{a, b}`: the slice-typed fields of s ARE a and b (shared backing arrays)
+	aliasPos map[types.Object]token.Pos
+	calls    map[string]string // call oracles used: Lean parameter name -> its type
 }
 
 // ------------------------------------------------------------------------------------------------ hooks
@@ -174,6 +180,9 @@ func (t *tr) expr7(e ast.Expr) (string, bool) {
 			return "?", true
 		}
 	case *ast.SelectorExpr:
+		if tgt := z.aliasTarget(t, e); tgt != nil {
+			return t.expr(tgt), true
+		}
 		root, path := selPath(e)
 		if root != nil {
 			if pv := z.ptrs[t.objOf(root)]; pv != nil {
@@ -279,6 +288,12 @@ func (t *tr) binary7(e *ast.BinaryExpr) (string, bool) {
 		}
 		return t.nm(x.(*ast.Ident)) + ".isSome", true
 	}
+	if obj := t.objOf(x); obj != nil && t.seven.nilLocal[obj] {
+		if e.Op == token.EQL {
+			return t.nm(x.(*ast.Ident)) + "_isNil", true
+		}
+		return "(!" + t.nm(x.(*ast.Ident)) + "_isNil)", true
+	}
 	return "", false
 }
 
@@ -304,6 +319,9 @@ func (t *tr) pcs7(e ast.Expr, cond bool, hoist *[]*ast.CallExpr) ([]string, bool
 			return nil, true
 		}
 	case *ast.SelectorExpr:
+		if tgt := z.aliasTarget(t, e); tgt != nil {
+			return t.pcs(tgt, cond, hoist), true
+		}
 		root, _ := selPath(e)
 		if root != nil {
 			if pv := z.ptrs[t.objOf(root)]; pv != nil {
@@ -380,7 +398,8 @@ func (g *generator) zwFunction(p *pkgInfo, spec fnSpec, group int, fd *ast.FuncD
 	t.fnBody = fd.Body
 	t.opt = true
 	z := &round7{ptrs: map[types.Object]*ptrVar{}, windows: map[types.Object]*windowVar{}, slocals: map[types.Object]*structLocal{},
-		ifNonNil: map[types.Object]int{}, funcs: map[string]ltype{}, mdeps: map[string][]string{}}
+		ifNonNil: map[types.Object]int{}, funcs: map[string]ltype{}, mdeps: map[string][]string{},
+		nilLocal: map[types.Object]bool{}, aliases: map[types.Object]map[string]ast.Expr{}, aliasPos: map[types.Object]token.Pos{}, calls: map[string]string{}}
 	t.seven = z
 	z.self = p.info.Defs[fd.Name]
 	t.declareGlobals()
@@ -631,6 +650,26 @@ func one(lt ltype) string {
 
 // target: the do-lines that store the Lean term v (of the type of l) into the Go assignment target l
 func (z *round7) store(t *tr, l ast.Expr, v string, define bool) []string {
+	if se, ok := l.(*ast.SelectorExpr); ok {
+		if tgt := z.aliasTarget(t, se); tgt != nil {
+			return z.store(t, tgt, v, false)
+		}
+	}
+	if ix, ok := l.(*ast.IndexExpr); ok {
+		x := ix.X
+		if se, isSel := x.(*ast.SelectorExpr); isSel {
+			if tgt := z.aliasTarget(t, se); tgt != nil {
+				x = tgt
+			}
+		}
+		// `xs[i] = v` on a slice-typed local
+		if id, isId := x.(*ast.Ident); isId && t.absOf(id) == nil && z.windows[t.objOf(id)] == nil && !t.isMapExpr(id) {
+			if lt := t.ltypeOf(t.objOf(id).Type()); lt.c == tArr {
+				k, _ := t.natOf(ix.Index)
+				return []string{fmt.Sprintf("%s := %s.setIfInBounds %s %s", t.nm(id), t.nm(id), k, v)}
+			}
+		}
+	}
 	switch l := l.(type) {
 	case *ast.ParenExpr:
 		return z.store(t, l.X, v, define)
@@ -1036,11 +1075,17 @@ func (z *round7) stmt(t *tr, s ast.Stmt) []string {
 		for _, r := range s.Results {
 			vs = append(vs, t.expr(r))
 		}
+		if z.plain && len(vs) == 0 {
+			return append(out, "return "+tuple(z.state))
+		}
 		return append(out, "return ("+tuple(vs)+", "+z.stateTuple()+")")
 	case *ast.BranchStmt:
 		if s.Label != nil || s.Tok != token.BREAK || len(z.flags) == 0 {
 			t.fail(s, "%s (only an unlabelled break of a loop)", s.Tok)
 			return nil
+		}
+		if z.flags[len(z.flags)-1] == "" {
+			return []string{"break"} // a range loop has no fuel
 		}
 		return []string{z.flags[len(z.flags)-1] + " := false", "break"}
 	case *ast.ExprStmt:
@@ -1049,6 +1094,9 @@ func (z *round7) stmt(t *tr, s ast.Stmt) []string {
 			break
 		}
 		if out, ok := z.callMut(t, nil, false, ce); ok {
+			return out
+		}
+		if out, ok := z.callOracle(t, ce); ok {
 			return out
 		}
 	case *ast.IfStmt:
@@ -1084,6 +1132,8 @@ func (z *round7) stmt(t *tr, s ast.Stmt) []string {
 		return out
 	case *ast.ForStmt:
 		return z.forStmt(t, s)
+	case *ast.RangeStmt:
+		return z.rangeStmt(t, s)
 	case *ast.AssignStmt:
 		return z.assign(t, s)
 	}
@@ -1269,6 +1319,9 @@ func (z *round7) assign(t *tr, s *ast.AssignStmt) []string {
 	}
 	if w := z.windows[lobj]; w != nil && !define {
 		return z.windowAssign(t, s, w, lobj, rhs)
+	}
+	if out, ok := z.assignSort(t, s, lhs, lobj, rhs, define); ok {
+		return out
 	}
 	out := z.guard(t, lhs, rhs)
 	if _, isIdent := lhs.(*ast.Ident); isIdent {
